@@ -743,7 +743,10 @@ class Scheduler:
                                 return JobState.WAITING
 
                     for listener in self.listeners:
-                        listener.job_state(job)
+                        try:
+                            listener.job_state(job)
+                        except Exception as e:
+                            logger.exception("Listener %s did raise an exception", e)
 
                     job.starttime = time.time()
 
@@ -758,8 +761,11 @@ class Scheduler:
                         job.add_notification_server(self.xp.server)
 
                 except Exception:
+                    # Not a dependency that is taken (LockError, above): the
+                    # job cannot be prepared. WAITING would start it again at
+                    # once, for ever, since its dependencies are satisfied
                     logger.warning("Error while locking job", exc_info=True)
-                    return JobState.WAITING
+                    return JobState.ERROR
 
                 try:
                     # Runs the job
